@@ -116,7 +116,7 @@ class RecEngine:
         RecEngine.last = kw
 
 
-def builder_scenario(chk, multi, fn_order=("b", "a"), rebuild=False):
+def builder_scenario(chk, multi, fn_order=("b", "a"), rebuild=False, tagx=""):
     """EngineBuilder(seed).set_initial_values(..., multiple_chains=multi) with jitter functions, build() with Engine re-bound to a recorder"""
     import liesel.goose as gs
     import liesel.goose.builder as bld
@@ -150,9 +150,9 @@ def builder_scenario(chk, multi, fn_order=("b", "a"), rebuild=False):
         ex = (key, jnp.array([[0.1, 0.2], [0.3, 0.4]]), jnp.array([0.5, 0.6]))
     else:
         ex = (key, jnp.array([0.1, 0.2]), jnp.array(0.5))
-    tag = ("multi" if multi else "single") + ("2" if rebuild else "")
+    tag = ("multi" if multi else "single") + ("2" if rebuild else "") + tagx
     sa, sb = symlike(ex[1], f"iv{tag}_a"), symlike(ex[2], f"iv{tag}_b")
-    enc = chk.note_enc(Enc(f"EngineBuilder.build with jitter ({'per-chain states' if multi else 'one state replicated'}{', built twice' if rebuild else ''})", f, ex, (root_key("seed"), sa, sb), key_roots={"seed": key},
+    enc = chk.note_enc(Enc(f"EngineBuilder.build with jitter ({'per-chain states' if multi else 'one state replicated'}{', built twice' if rebuild else ''}{', jitter for ' + ','.join(fn_order) if tagx else ''})", f, ex, (root_key("seed"), sa, sb), key_roots={"seed": key},
                            **(dict(memo={}) if rebuild else {})))      # built twice: the same sampler with the same key term is the same draw (deterministic PRNG)
     return enc, sa, sb, C
 
@@ -263,6 +263,13 @@ def builder_obligations(chk, multi):
         o = V.out
         same_seeds = all(repr(a) == repr(b) for a, b in zip(np.asarray(o["seeds"], dtype=object).reshape(-1), np.asarray(o["seeds2"], dtype=object).reshape(-1)))
         return [], z3.And(z3.BoolVal(bool(same_seeds)), *[all_eq(o["states"][k], o["states2"][k]) for k in ("a", "b")])
+    # jitter functions for only some of the position keys: the others start exactly at the supplied values
+    enc3, sa3, sb3, _ = builder_scenario(chk, multi, fn_order=("b",), tagx="partial")
+
+    def g3(V):
+        st = V.out["states"]
+        return [], z3.And(*[all_eq(st["a"][c], (sa3[c] if multi else sa3)) for c in range(C)])
+    obs.append(Obligation(f"[{tag}] a position key without a jitter function starts at its supplied initial value in every chain", [enc3], g3, signature=f"jitter-partial:{'multi' if multi else 'single'}"))
     enc2 = builder_scenario(chk, multi, rebuild=True)[0]
     obs.append(Obligation(f"[{tag}] a second build() of the same builder hands its engine the same seeds and the same (once-jittered) initial states: identical configuration => identical run",
                           [enc2], g2, signature=f"rebuild:{'multi' if multi else 'single'}"))
